@@ -351,10 +351,15 @@ pub fn shrink_any(prop: &dyn Property, ctx: &Ctx, scn: &Value) -> Vec<Value> {
 pub fn minimise(prop: &dyn Property, ctx: &Ctx, v: Violation, max_execs: usize) -> (Violation, usize) {
     let mut cur = v;
     let mut execs = 0usize;
+    let t0 = Instant::now();
+    let budget_s: u64 = std::env::var("VERIF_MINIMISE_SECONDS")
+        .ok()
+        .and_then(|s| s.parse().ok())
+        .unwrap_or(25);
     'outer: loop {
         let cands = shrink_any(prop, ctx, &cur.replay);
         for c in cands {
-            if execs >= max_execs {
+            if execs >= max_execs || t0.elapsed().as_secs() >= budget_s {
                 break 'outer;
             }
             execs += 1;
